@@ -253,7 +253,7 @@ fn parse_duration<V: AsRef<str> + Into<String>>(
     };
 
     // Check if the parsed value is a reasonable duration, to avoid a panic from `from_secs_f64`
-    if v >= 0.0 && v <= Duration::MAX.as_secs_f64() && v.is_finite() {
+    if v >= 0.0 && v < Duration::MAX.as_secs_f64() && v.is_finite() {
         Ok(Duration::from_secs_f64(v))
     } else {
         Err(TypedResponseError::invalid_value(field, value.into()))
